@@ -102,6 +102,13 @@ def h_dm1(ex, n, cycle='1', dll='j1939-21', sym_lamps=2, cycles=2, stop=True, cl
     tx = j1939.Dm1(sa.ca)
     rb = j1939.Dm1(sb.ca)
     rc = j1939.Dm1(sc.ca)
+    # an earlier subscriber on the same Dm1 object that post-processes (here: empties) what it was handed must not change
+    # what the later subscriber receives
+    def mutator(sa_, lamp_status, dtc_list, ts):
+        w.callback_fired()
+        del dtc_list[:]
+        lamp_status.clear()
+    rb.subscribe(mutator)
     rb.subscribe(mk('B'))
     rc.subscribe(mk('C'))
     w.run(until=T('1/100'))
